@@ -122,6 +122,20 @@ func c07Tuple(c *core.Ctx, l *spec.Layout, vals []int64, focus int) {
 		c.Violate("C07|value|"+l.Name+"|encoded-length", "%d bytes, the specification says %d | %s", len(b), l.Size, core.Dump(pl))
 		return
 	}
+	// the bytes handed out are the caller's (it appends a MIC, patches a byte, re-uses the buffer): doing so
+	// must not reach what a later encode - of this or of any other value - returns
+	{
+		keep := append([]byte{}, b...)
+		b2, _ := pl.MarshalBinary()
+		for i := range b2 {
+			b2[i] ^= 0xff
+		}
+		_ = append(b2, 0xEE, 0xEE, 0xEE, 0xEE)
+		if b3, e3 := pl.MarshalBinary(); e3 != nil || !bytes.Equal(b3, keep) || !bytes.Equal(b, keep) {
+			c.Violate("C07|value|"+l.Name+"|output-shared", "encoding %s gives %x; after the caller overwrote the bytes returned by another encode of it, the first result reads %x and a new encode gives %x (%v)", core.Dump(pl), keep, b, b3, e3)
+			return
+		}
+	}
 	// accepted: must be lossless
 	back := macCtor[l.Uplink][l.CID]()
 	c.Eval(1)
